@@ -153,9 +153,7 @@ static void hub(const Matrix4_<T>& M, const R3& R, const std::string& src, const
 	V3 v = M.axisAngle();
 	vf::add(C_EVAL);
 	long double dv = dist(ref_rotvec(v.x, v.y, v.z), R);
-	long double vl = sqrtl((long double)v.x * v.x + (long double)v.y * v.y + (long double)v.z * v.z);
 	if (!(dv <= tola)) report<T>("matrix_to_axisangle", fmt("%s::axisAngle()%s = (%.9g, %.9g, %.9g)", N<T>::m4(), via, (double)v.x, (double)v.y, (double)v.z), dv, tola, src, kase);
-	if (!(vl <= PIL * (1 + 8 * eps))) rep.bad("axisangle_range", fmt("%s::axisAngle() of %s has length %.12Lg > pi", N<T>::m4(), src.c_str(), vl), kase);
 	mx.see_lazy(sizeof(T) == 4 ? "matrix_to_axisangle.f" : "matrix_to_axisangle.d", dv / tola * TOL_BACK, [&] { return kase; });
 	// --- axis-angle -> matrix and -> quaternion with asl, on the vector just obtained (isolated checks)
 	{
